@@ -351,16 +351,15 @@ class NormalizeCurve(Command):
             prev_raw = value_pairs[i - 1][0]
             prev_normal = value_pairs[i - 1][1]
 
-            m = (normal - prev_normal) / (raw - prev_raw)
-            b = prev_normal - m * prev_raw
-
             where_idx = numpy.where(
                 numpy.logical_and(arr.data > prev_raw, arr.data <= raw)
             )
 
-            result[where_idx] = arr.data[where_idx]
-            result[where_idx] *= m
-            result[where_idx] += b
+            # Interpolate with the position inside the segment (0..1) instead of a slope and an intercept, which
+            # overflow to inf/nan when two control points are extremely close together
+            result[where_idx] = (arr.data[where_idx] - prev_raw) / (raw - prev_raw)
+            result[where_idx] *= normal - prev_normal
+            result[where_idx] += prev_normal
 
         # For raw values greater than the highest raw value, set them to the corresponding normal value
         result[arr > value_pairs[-1][0]] = value_pairs[-1][1]
@@ -451,15 +450,15 @@ class NormalizeCurveZScore(Command):
             prev_raw = value_pairs[i - 1][0]
             prev_normal = value_pairs[i - 1][1]
 
-            m = (normal - prev_normal) / (raw - prev_raw)
-            b = prev_normal - m * prev_raw
-
             where_idx = numpy.where(
                 numpy.logical_and(arr.data > prev_raw, arr.data <= raw)
             )
-            result[where_idx] = arr.data[where_idx]
-            result[where_idx] *= m
-            result[where_idx] += b
+
+            # Interpolate with the position inside the segment (0..1) instead of a slope and an intercept, which
+            # overflow to inf/nan when two control points are extremely close together
+            result[where_idx] = (arr.data[where_idx] - prev_raw) / (raw - prev_raw)
+            result[where_idx] *= normal - prev_normal
+            result[where_idx] += prev_normal
 
         # For raw values greater than the highest raw value, set them to the corresponding normal value
         result[arr > value_pairs[-1][0]] = value_pairs[-1][1]
